@@ -3278,6 +3278,11 @@ namespace bloch::runtime {
                 m_trackedCounts[key][outcome]++;
             }
         }
+        // Detach the scope before dropping its values: releasing the last reference to an
+        // object runs its destructor, which opens a scope of its own. Destroying the map
+        // in place (pop_back) would let that push_back reuse the slot that is still being
+        // destroyed.
+        auto scope = std::move(m_env.back());
         m_env.pop_back();
     }
 
